@@ -202,6 +202,17 @@ class Family:
         return {}
 
 
+_PRODS = {}
+
+
+def products(aset, bset):
+    """{a*b} of two arithmetic lattices as an explicit sorted set (cached: 16384 elements for ECP5)"""
+    key = (aset.start, aset.step, aset.count, bset.start, bset.step, bset.count)
+    if key not in _PRODS:
+        _PRODS[key] = Explicit(a * b for a in aset for b in bset)
+    return _PRODS[key]
+
+
 def fact_chain(pfd, K, aset, bset):
     """intermediate products pfd*a of (pfd*a)*b for EVERY factorisation K = a*b inside the two lattices (conservative:
     the exactness clause then holds whichever factorisation the helper meets first)"""
@@ -454,7 +465,7 @@ class ECP5(Family):
     def model(self, pll, req):
         fbs = Arith.from_range(pll.clkfb_div_range)
         ods = Arith.from_range(pll.clko_div_range)
-        prods = Explicit(a * b for a in fbs for b in ods)
+        prods = products(fbs, ods)
         nmax, nreq = pll.nclkouts_max, len(req.outs)
         allowed = [self.fb_allowed(pll, n) for n in range(nreq)]
 
@@ -840,7 +851,7 @@ class Gowin5(Family):
 
     def model(self, pll, req):
         rng, exact = _vco_rng(pll)
-        prods = Explicit(a * b for a in self.FDIV for b in self.MDIV)
+        prods = products(self.FDIV, self.MDIV)
         return Model(req.fin, self.IDIV, prods, rng, [Out(f, m, self.ODIV) for f, p, m in req.outs],
                      pfd_rng=pll.pfd_freq_range, src_exact_bounds=exact,
                      chain=lambda fin, D, M, src: [fin / D, src] + fact_chain(fin / D, M, self.FDIV, self.MDIV))
